@@ -395,6 +395,9 @@ def _gen_one(env, cat, f, name, b, depth, narrow):
             return {"__received__": True} if b.received else {}
         if narrow and not b.narrow:
             b = Bounds(b.rep, b.mapn, b.strlen, b.depth, True, b.enum_numbers, b.received, b.wide_first_only)
+        if b.received and f.label not in ("repeated", "map") and cat.shapes[f.msg].fields and env.choose(name + "#bare", 2):
+            # a sub-message built with no argument at all (`Leaf()`): nothing in it was ever assigned, so it is not marked present
+            return {}
         sub = gen_value(env, cat, f.msg, name + ".", b, depth + 1)
         if not [k for k in sub if not k.startswith("__")] and b.received and f.label not in ("repeated", "map"):
             if not cat.shapes[f.msg].fields:
